@@ -16,7 +16,7 @@ RULE = ("25 operations (slope, aspect, curvature, hillshade, focal mean/apply/fo
         "non-square and larger than a chunk x scheduler {synchronous, threads x 1/2/4/16}; a dask Callback injects seeded 0-500us "
         "sleeps before tasks under the threaded scheduler and records task order and thread ids; non-trivial = distinct (operation, "
         "data, chunking, arguments) with >= 2 blocks on some axis and a non-constant raster")
-BUDGET = {'quick': 150, 'thorough': 1200}
+BUDGET = {'quick': 300, 'thorough': 1200}
 FLOORS = {'quick': {'dask_equals_numpy': 585, 'stays_dask': 585, 'chunks.has-1-cell-chunk': 250, 'kernel_larger_than_a_chunk': 72,
                     'kernel_nonsquare': 58, 'scheduler.threads': 300, 'threaded_runs_with_>=2_threads': 20},
           'thorough': {'dask_equals_numpy': 9000, 'all_compositions_blocks': 200}}
